@@ -387,6 +387,35 @@ func Project(calls []proto.Call) []string {
 	return out
 }
 
+// ProjectResults is Project plus the events of every delivered transaction (the whole transaction result).
+func ProjectResults(calls []proto.Call) []string {
+	var out []string
+	for _, c := range calls {
+		if c.Injected {
+			continue
+		}
+		switch c.M {
+		case "InitChain":
+			out = append(out, "InitChain "+vuStr(c.ValUpdates))
+		case "DeliverTx":
+			var ev []string
+			for _, e := range c.Events {
+				var kv []string
+				for _, a := range e.Attrs {
+					kv = append(kv, a.K+"="+a.V)
+				}
+				ev = append(ev, e.Type+"{"+strings.Join(kv, ",")+"}")
+			}
+			out = append(out, fmt.Sprintf("DeliverTx %s code=%d data=%s gu=%d gw=%d events=%s", short(c.TxHash), c.Code, c.Data, c.GasUsed, c.GasWanted, strings.Join(ev, ";")))
+		case "EndBlock":
+			out = append(out, "EndBlock "+vuStr(c.ValUpdates))
+		case "Commit":
+			out = append(out, "Commit "+c.AppHash)
+		}
+	}
+	return out
+}
+
 func short(s string) string {
 	if len(s) > 12 {
 		return s[:12]
